@@ -328,3 +328,27 @@ pub fn dense(x: &T, w: &T, b: &T, a: Act) -> R<T> {
 pub fn conv_layer(x: &T, f: &T, b: &T, sr: usize, sc: usize, a: Act) -> R<T> {
     Ok(activate(&add(&conv(x, f, sr, sc)?, b)?, a))
 }
+
+use crate::ir::OpKind;
+/// does any element of a reference tensor violate the in-domain value range of `op`?
+pub fn in_domain(op: &OpKind, operands: &[&T]) -> bool {
+    use OpKind::*;
+    let rng = |t: &T, lo: f64, hi: f64| t.vals.iter().all(|x| x.v >= lo && x.v <= hi);
+    let absrng = |t: &T, lo: f64, hi: f64| t.vals.iter().all(|x| x.v.abs() >= lo && x.v.abs() <= hi);
+    match op {
+        Div => absrng(operands[1], 0.25, 1e4),
+        Recip => absrng(operands[0], 0.25, 1e4),
+        Ln => rng(operands[0], 0.25, 1e4),
+        Exp | Softmax | Sigmoid => rng(operands[0], -3.0, 3.0),
+        Powf(e) => {
+            if *e == e.trunc() && *e >= 1.0 {
+                absrng(operands[0], 0.0, 16.0)
+            } else if *e == e.trunc() {
+                absrng(operands[0], 0.25, 16.0)
+            } else {
+                rng(operands[0], 0.25, 4.0)
+            }
+        }
+        _ => true,
+    }
+}
